@@ -1,5 +1,6 @@
+from xeng import progs, progs2, progs3
 from . import _common
 
 
 def run(out):
-    _common.run(out, 'C18', s_props=['C18'])
+    _common.run(out, 'C18', x=[dict(fn=progs3.c02_corpus, name='c18', filter=lambda p: 'C18' in p.props)], s_props=['C18'])
